@@ -86,6 +86,12 @@ CHECKS = {
              "every run is abstracted (contents against fresh-directory references, flags from os.path.getmtime) and compared with the model's run: files rewritten, contents afterwards, exit status, every result cell. "
              "Assumed, named in the evidence: no file carries an mtime later than the clock (a future-dated overlap file defeats the refresh; outside the property's 'touch'); edits stay within the existing chromosomes.",
         design="DESIGN.md 6 C13"),
+    "C14": dict(
+        technique="Coq proof (the data-path model uses names only under equality: injective renamings commute with the run; first run vs re-run from the cache model) + renaming pools through the real command line, twice per directory",
+        text="Theorems c14_rename/verbatim/same_outcome over Model/Pipeline.v for ALL injective renamings of chromosomes, genes, orders, superfamilies avoiding the reserved labels (numeric-looking, case-differing, non-ASCII names are just other values), "
+             "and c14_first_run/first_vs_rerun over Model/Cache.v. Tie: name pools (numeric-looking incl. '007'/'7'/'1e3', case families, non-ASCII, blanks/punctuation/quotes, boolean- and NA-looking words, prefix families) applied per category and together; "
+             "renamed pair run twice in one directory through the CLI: first run vs re-run (exit, labels, values), renamed vs original through the inverse renaming, labels verbatim, model on the renamed pair.",
+        design="DESIGN.md 6 C14"),
     "C15": dict(
         technique="Coq proof (invariant of the load/crash state machine over all histories) + histories with kills and exceptions on real files",
         text="Theorems c15_idempotent/raw_untouched over histories of loads through every constructor interleaved with loads interrupted at any step; legacy behaviours refuted. "
